@@ -49,8 +49,15 @@ func WorkDir() string {
 			panic(err)
 		}
 		workDir = d
+		// the owner holds an exclusive flock on owner.lock for its whole life
+		if f, err := os.OpenFile(filepath.Join(d, "owner.lock"), os.O_CREATE|os.O_RDWR, 0o644); err == nil {
+			syscall.Flock(int(f.Fd()), syscall.LOCK_EX|syscall.LOCK_NB)
+			ownerLock = f
+		}
+		sweepStale(base)
 		c := make(chan os.Signal, 2)
-		signal.Notify(c, syscall.SIGINT, syscall.SIGTERM)
+		// SIGPIPE: a reader of our output that went away (`| head`) must not leave the scratch root behind
+		signal.Notify(c, syscall.SIGINT, syscall.SIGTERM, syscall.SIGHUP, syscall.SIGPIPE)
 		go func() {
 			<-c
 			Cleanup()
@@ -58,6 +65,31 @@ func WorkDir() string {
 		}()
 	})
 	return workDir
+}
+
+var ownerLock *os.File
+
+// sweepStale removes scratch roots left behind by harness processes that were
+// killed before they could clean up: the flock their owner held is free.
+func sweepStale(base string) {
+	ents, _ := filepath.Glob(filepath.Join(base, "t38v-*"))
+	for _, d := range ents {
+		if d == workDir {
+			continue
+		}
+		f, err := os.OpenFile(filepath.Join(d, "owner.lock"), os.O_RDWR, 0)
+		if err != nil {
+			// roots of older harness versions carry no lock file: stale after a day
+			if fi, e := os.Stat(d); e == nil && time.Since(fi.ModTime()) > 24*time.Hour {
+				os.RemoveAll(d)
+			}
+			continue
+		}
+		if syscall.Flock(int(f.Fd()), syscall.LOCK_EX|syscall.LOCK_NB) == nil {
+			os.RemoveAll(d)
+		}
+		f.Close()
+	}
 }
 
 // Cleanup kills every child and removes the scratch root.
